@@ -96,24 +96,44 @@ def layered_radii(check, prog, canon):
     res = it.analyze(q)
     v = res.ret
     t = intern(('attr', sym('self'), 't'))
-    ok = v[0] == 'loop'
-    why = 'r is not built by a loop over the thicknesses: %s' % show(v)[:160]
-    if ok:
+    # r[j] = t[0] + ... + t[j]: either numpy.cumsum(t), or the recurrence
+    # r[0] = t[0]; r[j] = r[j-1] + t[j] for j = 1 .. len(t)-1, with the position j
+    # produced by enumerate (any start) over t[1:] or by range(1, len(t))
+    ok = v == ('call', 'numpy.cumsum', (t,), ()) or \
+        v == ('call', ('attr', t, 'cumsum'), (), ())
+    why = 'r is not the running sum of the thicknesses: %s' % show(v)[:160]
+    if v[0] == 'loop':
         init, step, itr = v[3], v[4], v[5]
         ok_init = init[0] == 'upd' and init[3] == num(0) and init[4] == ('idx', t, num(0)) \
             and init[1][0] == 'call' and init[1][1] == 'numpy.zeros'
         rest = intern(('idx', t, ('slice', num(1), NONE, NONE)))
-        ok_iter = itr == ('call', 'enumerate', (rest,), ())
-        ok_step = False
-        if step[0] == 'upd' and step[1][0] == 'phi':
+        one = num(1)
+        lid = v[1] if not isinstance(v[1], tuple) else None
+        ok_step = ok_iter = False
+        if step[0] == 'upd' and step[1][0] == 'phi' and step[2] == 'item':
             key, val = step[3], step[4]
-            i = [x for x in subterms(key) if x[0] == 'idx' and x[1][0] == 'elem'
-                 and x[2] == num(0)]
-            if i:
-                I = i[0]
-                ok_step = canon.equal(key, intern(('bin', '+', I, num(1)))) and \
-                    is_sum(val, intern(('idx', step[1], I)),
-                           intern(('elem', rest, I[1][2])))
+            if itr[0] == 'call' and itr[1] == 'enumerate' and itr[2] and itr[2][0] == rest:
+                kws = dict(itr[3])
+                start = itr[2][1] if len(itr[2]) == 2 else kws.get('start', num(0))
+                ok_iter = len(itr[2]) <= 2 and set(kws) <= {'start'}
+                pos = [x for x in subterms(key) if x[0] == 'idx' and x[1][0] == 'elem'
+                       and x[1][1][0] == 'call' and x[1][1][1] == 'enumerate'
+                       and x[2] == num(0)]
+                if pos:
+                    P = pos[0]           # zero-based position in t[1:]
+                    layer = intern(('elem', rest, P[1][2]))
+                    ok_step = canon.equal(key, intern(('bin', '+', P, one))) and any(
+                        is_sum(val, x, layer) and canon.equal(
+                            intern(('bin', '+', x[2], one)), key)
+                        for x in subterms(val) if x[0] == 'idx' and x[1] == step[1])
+            elif itr == ('call', 'range', (one, ('call', 'len', (t,), ())), ()):
+                ok_iter = True
+                I = [x for x in subterms(key) if x[0] == 'elem' and x[1] == itr]
+                if I and key == I[0]:
+                    ok_step = any(
+                        is_sum(val, x, intern(('idx', t, key))) and canon.equal(
+                            intern(('bin', '+', x[2], one)), key)
+                        for x in subterms(val) if x[0] == 'idx' and x[1] == step[1])
         ok = ok_init and ok_iter and ok_step
         why = 'init %s; loop over %s; step %s' % (show(init)[:80], show(itr)[:60],
                                                    show(step)[:160])
@@ -177,22 +197,24 @@ def seam(check, prog, canon):
     xarr = x0[1] if x0[0] == 'idx' else None
     marr = m0[1] if m0[0] == 'idx' else None
     ok_idx = x0[0] == 'idx' and x0[2] == num(0) and m0[0] == 'idx' and m0[2] == num(0)
-    # the path condition must force exactly one layer
-    need = {intern(('cmp', '==', ('call', 'len', (xarr,), ()), num(1)))} if xarr else set()
-    have = set()
-    for t, pol in single[0].cond:
-        if pol:
-            for y in subterms(t):
-                if y[0] == 'cmp':
-                    have.add(y)
-    ok_one = ok_idx and need <= have
+    # the path condition must force exactly one layer: assuming len(x) != 1, the
+    # conjunction of the path's conditions (whatever their form: positive test,
+    # negated early exit, ...) evaluates to false
+    from hpstatic.logic import cond3
+    lenx = intern(('call', 'len', (xarr,), ())) if xarr else None
+
+    def more_layers(t):
+        if lenx is not None and t[0] == 'cmp' and {t[2], t[3]} == {lenx, num(1)}:
+            return {'==': False, '!=': True}.get(t[1])
+        return None
+    ok_one = ok_idx and cond3(single[0].cond, more_layers) is False
     check.require(ok_one, 'H3-dispatch', 'Mie._scat_coeffs single-layer branch',
                   'taken only when there is exactly one size parameter; uses m[0], x[0]',
                   loc, fail_detail='the single-layer routine is called with %s, %s on a '
                   'path that does not require len(x) == 1 (conditions: %s): the outer '
                   'layers of a multi-layer sphere are silently dropped' % (
                       show(m0)[:60], show(x0)[:60],
-                      [show(t)[:80] for t, p in single[0].cond if p]))
+                      [('' if p else 'not ') + show(t)[:80] for t, p in single[0].cond]))
     # x = k * r, m = n / n_medium
     wx = expr_term(prog, 'medium_wavevec * r', {'medium_wavevec': sym('medium_wavevec'),
                                                 'r': intern(('call', 'holopy.core.utils.ensure_array',
